@@ -1,0 +1,23 @@
+//go:build verif
+
+package encoding
+
+// VerifBucketHeaderRoundTrip marshals the bucket header of a Uint64Map entry
+// (id, tag, length) under the given layout, and unmarshals it again from the
+// bucket the id is stored in, returning what was read back together with the
+// number of bytes written and read.
+func VerifBucketHeaderRoundTrip(id uint64, tag Tag, length int, bucketBits int, tagBits int) (uint64, Tag, int, int, int) {
+	layout := Uint64MapLayout{BucketBits: bucketBits, TagBits: tagBits}
+	var buffer [maxUint64MapBucketHeaderLength]byte
+	written := uint64MapBucketHeader{ID: id, Tag: tag, Length: length}
+	w := written.Marshal(buffer[0:], &layout)
+	var read uint64MapBucketHeader
+	r := read.Unmarshal(buffer[0:], layout.BucketForID(id), &layout)
+	return read.ID, read.Tag, read.Length, w, r
+}
+
+// VerifUint64MapLayout returns the layout NewUint64MapBuilder uses when asked
+// for the given number of bucket and tag bits, without allocating the map.
+func VerifUint64MapLayout(bucketBits int, tagBits int) Uint64MapLayout {
+	return uint64MapLayoutFor(bucketBits, tagBits)
+}
